@@ -465,6 +465,17 @@ func runC04(ctx *core.Ctx, idx int) *core.Result {
 		res.Ob("pattern-x-target pairs", len(targets)+len(long))
 	}
 	// for ... { against every loop header shape
+	if idx < 24 {
+		// an elision over elements that an earlier change of the same patch generated (chain shared with C01 and C02)
+		g := gen.NewG(ctx.Rand("c04chain", idx))
+		chain, plants, word := followUpChain(g, 6)
+		var srcs, extra []string
+		for f := 0; f < 3; f++ {
+			srcs = append(srcs, g.File(gen.FileOpts{Plants: plants}))
+			extra = append(extra, word)
+		}
+		semBatchSeq(ctx, idx, res, chain, srcs, extra, idx%4 == 0, "C04")
+	}
 	if idx < len(listKinds) {
 		forDotsCase(ctx, idx, res)
 		forWrittenHeaderCase(ctx, idx, res, "C04")
